@@ -153,6 +153,8 @@ def main(tier: str, seed: int) -> int:
         chk.add_case({"pair": [label, sd, vname]})
     # re-seeding on reset reproduces the same episode again (episode 1 vs episode 2 of the base run)
     for k, (label, sc, nact) in enumerate(scen):
+        if "dir" in sc:
+            continue  # (an episode schedule: episode 1 and episode 2 are different scenarios by design)
         for j, sd in enumerate(seeds):
             o = outs[[i for i, s in enumerate(specs) if s["scenario"] == sc and s["seed"] == sd][0]]
             n = 1 + steps
